@@ -146,7 +146,7 @@ impl<'a> HavokBinaryTagFileReader<'a> {
             let value = if *data_existence.get(index)? {
                 self.read_object_member_value(member)?
             } else {
-                Self::default_value(member.type_)
+                Self::default_value(member.type_)?
             };
             data.insert(index, value);
         }
@@ -160,10 +160,11 @@ impl<'a> HavokBinaryTagFileReader<'a> {
             // a length that is negative or larger than the remaining input is corrupt and would
             // make the loops below run and allocate without end
             if array_len < 0 || array_len as usize > self.reader.raw().len() {
-                panic!("invalid array length")
+                // invalid array length
+                return None;
             }
             if member.type_.base_type() == HavokValueType::OBJECT && member.class_name.is_none() {
-                panic!()
+                return None;
             }
 
             HavokValue::Array(self.read_array(member, array_len as usize)?)
@@ -176,7 +177,8 @@ impl<'a> HavokBinaryTagFileReader<'a> {
                 HavokValueType::OBJECT => {
                     HavokValue::ObjectReference(self.read_packed_int()? as usize)
                 }
-                _ => panic!("unimplemented {}", member.type_.bits()),
+                // unimplemented (tuples, vectors, structs and void members outside an array)
+                _ => return None,
             }
         })
     }
@@ -192,7 +194,7 @@ impl<'a> HavokBinaryTagFileReader<'a> {
                 .map(|_| Some(HavokValue::String(self.read_string()?)))
                 .collect::<Option<Vec<_>>>()?,
             HavokValueType::STRUCT => {
-                let target_type = self.find_type(member.class_name.as_ref().unwrap());
+                let target_type = self.find_type(member.class_name.as_ref()?)?;
                 let data_existence = self.read_bit_field(target_type.member_count())?;
 
                 let mut result_objects = Vec::new();
@@ -208,13 +210,17 @@ impl<'a> HavokBinaryTagFileReader<'a> {
 
                 // struct of array
                 for (member_index, member) in target_type.members().into_iter().enumerate() {
-                    if data_existence[member_index] {
+                    if *data_existence.get(member_index)? {
                         if member.type_.is_tuple() {
-                            panic!()
+                            // unimplemented
+                            return None;
                         } else {
                             let data = self.read_array(member, array_len)?;
                             for (index, item) in data.into_iter().enumerate() {
-                                result_objects[index].borrow_mut().set(member_index, item);
+                                result_objects
+                                    .get(index)?
+                                    .borrow_mut()
+                                    .set(member_index, item);
                             }
                         }
                     }
@@ -250,7 +256,7 @@ impl<'a> HavokBinaryTagFileReader<'a> {
             | HavokValueType::VEC8
             | HavokValueType::VEC12
             | HavokValueType::VEC16 => {
-                let vec_size = member.type_.base_type().vec_size() as usize;
+                let vec_size = member.type_.base_type().vec_size()? as usize;
                 (0..array_len)
                     .map(|_| {
                         Some(HavokValue::Vec(
@@ -261,11 +267,8 @@ impl<'a> HavokBinaryTagFileReader<'a> {
                     })
                     .collect::<Option<Vec<_>>>()?
             }
-            _ => panic!(
-                "unimplemented {} {}",
-                member.type_.bits(),
-                member.type_.base_type().bits()
-            ),
+            // unimplemented (arrays of void and of the undefined base types 11..15)
+            _ => return None,
         })
     }
 
@@ -370,12 +373,11 @@ impl<'a> HavokBinaryTagFileReader<'a> {
         }
     }
 
-    fn find_type(&self, type_name: &str) -> Arc<HavokObjectType> {
+    fn find_type(&self, type_name: &str) -> Option<Arc<HavokObjectType>> {
         self.remembered_types
             .iter()
             .find(|&x| &*x.name == type_name)
-            .unwrap()
-            .clone()
+            .cloned()
     }
 
     fn fill_object_reference(&self, object: &mut HavokObject) -> Option<()> {
@@ -406,12 +408,12 @@ impl<'a> HavokBinaryTagFileReader<'a> {
         Some(())
     }
 
-    fn default_value(type_: HavokValueType) -> HavokValue {
-        if type_.is_array() || type_.is_tuple() {
+    fn default_value(type_: HavokValueType) -> Option<HavokValue> {
+        Some(if type_.is_array() || type_.is_tuple() {
             HavokValue::Array(Vec::new())
         } else if type_.is_vec() {
             // (the base type of a vector type is the vector type itself: recursing on it never ends)
-            HavokValue::Vec(vec![0.0; type_.vec_size() as usize])
+            HavokValue::Vec(vec![0.0; type_.vec_size()? as usize])
         } else {
             match type_ {
                 HavokValueType::EMPTY => HavokValue::Integer(HavokInteger::default()),
@@ -420,8 +422,9 @@ impl<'a> HavokBinaryTagFileReader<'a> {
                 HavokValueType::REAL => HavokValue::Real(0.0),
                 HavokValueType::STRING => HavokValue::String(Arc::from("")),
                 HavokValueType::OBJECT => HavokValue::ObjectReference(0),
-                _ => panic!("unimplemented {}", type_.bits()),
+                // unimplemented (structs and the undefined base types 11..15)
+                _ => return None,
             }
-        }
+        })
     }
 }
